@@ -42,7 +42,9 @@ TESTDIRS = {'html': 'html', 'css': 'css', 'js': 'js', 'json': 'json', 'svg': 'sv
 _LT = r'(?:\\x3c|\\u003c|\\u\{0*3c\}|\\0?74)'
 _SL = r'(?:/|\\/|\\x2f|\\u002f|\\u\{0*2f\}|\\0?57)'
 # K1: an escape sequence in a JS literal that the JS minifier decodes so that "</script" appears inside an HTML script element
-KNOWN_CONSTRUCT = re.compile((_LT + _SL + r'script|<(?:\\x2f|\\u002f|\\u\{0*2f\}|\\0?57)script').encode(), re.I)
+KNOWN_CONSTRUCT = re.compile(b'(?i:' + (_LT + _SL + r'script|<(?:\\x2f|\\u002f|\\u\{0*2f\}|\\0?57)script').encode() + b')' +
+                             # ... or drops the backslash of  <\/SCRIPT>  /  <\/script >  (only the exact spelling <\/script> is kept)
+                             rb'|<\\/(?!script>)(?i:script)')
 # K2: a?.`tpl` printed for  (a===null||a===undefined)?undefined:a`tpl`   (tagged template on an optional chain is a SyntaxError)
 K_OPTCHAIN_TPL = re.compile(rb'(?:null|undefined)\s*\)?\s*\?\s*(?:undefined|void 0)\s*:[^;]*`')
 # K3: (++b)**2 is printed as ++b**2, which the minifier's own parser rejects on the second pass
@@ -62,9 +64,14 @@ K_EXPORT_EMPTY = re.compile(rb'export\s*\{\s*\}')
 
 
 # K9: SVG path coordinates beyond the float64 range are printed as "Inf" (invalid path data)
-K_SVG_HUGE = re.compile(rb'[eE]\+?\d{3,}|\d{300,}')
+K_SVG_HUGE = re.compile(rb'\bd\s*=\s*["\'][^"\']*(?:[eE]\+?\d{3,}|\d{300,})')
 # K10: a processing instruction whose content contains ">" before its "?>" is cut at that ">" by the XML/SVG minifiers
 K_PI_GT = re.compile(rb'<\?(?:(?!\?>)[^>])*(?<!\?)>', re.S)
+
+
+# K11: a script element whose type attribute spells a JavaScript MIME type with upper-case letters is left unminified (the
+#      registry lookup is case-sensitive) while the attribute is dropped as a default; the second pass then parses the text as JS
+K_SCRIPT_TYPE_CASE = re.compile(rb'(?i:<script\b[^>]*\btype\s*=\s*["\']?)[^"\'>]*[A-Z]')
 
 
 def has_known_construct(b):
@@ -94,6 +101,8 @@ def excluded(lang, opts, b):
         tags.append('K9')
     if lang in ('xml', 'svg') and K_PI_GT.search(b):
         tags.append('K10')
+    if lang == 'html' and K_SCRIPT_TYPE_CASE.search(b):
+        tags.append('K11')
     return tags
 
 
@@ -237,8 +246,9 @@ def mutate(rnd, lang, b, pool):
 
 
 def neutralize(b):
-    """bases for mutation must not contain the known construct (every mutant would re-find it)"""
-    return KNOWN_CONSTRUCT.sub(lambda m: m.group(0)[:-6] + b' script', b)
+    """bases for mutation must not contain known constructs K1 / K11 (every mutant would re-find them)"""
+    b = KNOWN_CONSTRUCT.sub(lambda m: m.group(0)[:-6] + b' script', b)
+    return K_SCRIPT_TYPE_CASE.sub(lambda m: m.group(0).lower(), b)
 
 
 def html_window(rnd, b, maxlen=6000):
@@ -310,6 +320,14 @@ def fusion_critical(cls):
                 return True
         return any(tuple(names[i:i + 3]) in triples for i in range(len(p) - 2))
     return crit
+
+
+EMBED_PROBES = [
+    b'x=(a< /script>/.test(b))', b'x=[a< /script>/]', b'if(a< /script>/.test(b)){c()}', b'f(a< /script>/,1)',
+    b"x=('<\\/script>'+y)", b'x=("<\\/script>")', b'x=(`<\\/script>`)', b'x=(/<\\/script>/)', b"x=('<\\/script>')", b"x=['<\\/SCRIPT>']",
+    b"x=('<'+'/script>')", b"x=('</scr'+'ipt>')", b"x=('<\\/scr'+'ipt>')", b"x=(a<!--b)", b"x=(a< !--b)", b"x=(a< ! --b)", b"x=('<!-'+'-')",
+    b"x=(a-- >b)", b"x=('<\\!--')", b"x=`${'<'}/script>`", b"x=(a</script>/.test(b)?1:2)".replace(b'</script', b'< /script'),
+]
 
 
 # ------------------------------------------------------------------------------------------- running
@@ -442,30 +460,31 @@ def run(ctx):
     th.start()
 
     cs = Cases(ctx)
-    only_pinned = os.environ.get('VERIF_C09_ONLY') == 'pinned'     # maintenance switch used to (re)generate known/C09.txt
-    docs = repo_documents() if not only_pinned else []
-    tests = test_strings(ctx) if not only_pinned else collections.defaultdict(list)
+    only_fixed = os.environ.get('VERIF_C09_ONLY') == 'fixed'       # maintenance: fixed repository inputs x every option set
+    only_pinned = os.environ.get('VERIF_C09_ONLY') == 'pinned' or only_fixed     # maintenance switches used to (re)generate known/C09.txt
+    docs = repo_documents() if not only_pinned or only_fixed else []
+    tests = test_strings(ctx) if not only_pinned or only_fixed else collections.defaultdict(list)
     # (a) corpora and benchmark documents
     for lang, path, origin in docs:
         size = os.path.getsize(path)
         sets = OPTSETS[lang]
-        if quick and size > 150000:
+        if quick and size > 150000 and not only_fixed:
             sets = ['default', rnd.choice(sets[1:])]
         for o in sets:
-            cs.add(lang, o, file=path, origin=origin)
+            cs.add(lang, o, file=path, origin=origin, allow_known=True)     # fixed repository inputs are never excluded
     # (b) the repository's own test inputs
     for lang in LANGS:
         for b, origin in tests[lang]:
-            sets = OPTSETS[lang] if not quick else ['default', rnd.choice(OPTSETS[lang][1:])]
+            sets = OPTSETS[lang] if not quick or only_fixed else ['default', rnd.choice(OPTSETS[lang][1:])]
             for o in sets:
-                cs.add(lang, o, data=b, origin=origin)
+                cs.add(lang, o, data=b, origin=origin, allow_known=True)
     # JS test inputs inside HTML hosts (embedded languages): script element and event handler
-    for b, origin in tests['js']:
+    for b, origin in (tests['js'] if not only_pinned else []):
         low = b.lower()
         if b'</script' in low or b'<!--' in low:
             continue
         cs.add('html', 'default', data=b'<!doctype html><title>t</title><p>x<script>' + b + b'</script><p>y', origin='host-script:' + origin)
-    for b, origin in tests['css']:
+    for b, origin in (tests['css'] if not only_pinned else []):
         if b'</style' in b.lower():
             continue
         cs.add('html', 'default', data=b'<style>' + b + b'</style><p style="color:red">x', origin='host-style:' + origin)
@@ -543,9 +562,14 @@ def run(ctx):
                 continue
             if cs.add('js', 'default', data=wrap % src, origin='adj:' + wname + ':' + '.'.join(cls[c - 1][0] for c in p), adj=list(p)) is not None:
                 nadj += 1
-        if len(p) <= 4 and b'/script' not in src and (not quick or rnd.random() < 0.25):
+        if len(p) <= 5 and (b'/script' in src or len(p) <= 4 and (not quick or rnd.random() < 0.25)):
             cs.add('html', 'default', data=b'<script>x=' + src + b';</script>', origin='adj-host:' + '.'.join(cls[c - 1][0] for c in p))
     ctx.coverage['adjacency_programs'] = nadj
+    # embedding probes: JavaScript whose printed form must not contain "</script" or "<!--" when it sits in an HTML script element
+    for k, js in enumerate(EMBED_PROBES if not only_pinned else []):
+        for o in OPTSETS['html'] if not quick else ['default', rnd.choice(OPTSETS['html'][1:])]:
+            cs.add('html', o, data=b'<!doctype html><title>t</title><script>' + js + b'</script><p>y', origin='embed:%d' % k)
+        cs.add('js', 'default', data=js, origin='embed-js:%d' % k)
     ctx.coverage['generator_exclusions_applied'] = cs.excluded
 
     # (f) pinned witnesses of known findings
@@ -599,11 +623,13 @@ def run(ctx):
         for pos in sorted(w1):
             i = sub[pos]
             reproduced += 1
-            if only_pinned:
-                print('PINNED-FAILS %s' % json.dumps(dict(cs.ident(i), key=vlib.case_key(cs.ident(i)))))
             rec = l1[pos]
             c = cs.cases[i]
             data = open(c['file'], 'rb').read()
+            if only_pinned:
+                print('PINNED-FAILS %s' % json.dumps(dict(cs.ident(i), key=vlib.case_key(cs.ident(i)), origin=c['origin'], tags=excluded(c['lang'], c['opts'], data),
+                                                          file=os.path.relpath(c['file'], vlib.REPO) if c['file'].startswith(vlib.REPO) else None,
+                                                          src=data.decode('latin1') if not c['file'].startswith(vlib.REPO) else None)))
             detail = dict(record={k: v for k, v in rec.items() if k not in ('in', 'out', 'paths0', 'paths1')},
                           origin=c['origin'], input_b64=base64.b64encode(data).decode() if len(data) <= 4 << 20 else None,
                           input_file=c['file'] if c['file'].startswith(vlib.REPO) else None)
@@ -613,7 +639,8 @@ def run(ctx):
                 with open(os.path.join(os.environ['VERIF_C09_SAVE'], '%s-%s.%s' % (c['opts'], cs.data[i]['sha'][:10], c['lang'])), 'wb') as f:
                     f.write(data)
     if len(bad) > 400:
-        raise vlib.Infra('%d rejected records; only the first 400 were re-run' % len(bad))
+        vlib.log('c09: %d rejected records; only the first 400 were re-run' % len(bad))
+        ctx.coverage['rejections_not_rerun'] = len(bad) - 400
     ctx.coverage['rejections'] = len(bad)
     ctx.coverage['rejections_reproduced'] = reproduced
 
@@ -705,12 +732,31 @@ def _regen_known():
     """maintenance: python3 tools/props/c09.py < output of `VERIF_C09_ONLY=pinned check.py --property C09`
     rewrites known/C09.txt (one line per pinned witness that fails) and prunes known/C09.ndjson to those witnesses"""
     import sys
-    fails = {}
+    fails, extra = {}, {}
     for line in sys.stdin:
         if line.startswith('PINNED-FAILS '):
             o = json.loads(line[len('PINNED-FAILS '):])
             fails[(o['lang'], o['opts'], o['inline'], o['sha1'])] = o['key']
+            extra[(o['lang'], o['opts'], o['inline'], o['sha1'])] = o
     rows = vlib.known_cases('C09')
+    have = set()
+    for w in rows:
+        data = open(os.path.join(vlib.REPO, w['file']), 'rb').read() if 'file' in w else w['src'].encode('latin1')
+        have.add((w['lang'], w['opts'], w.get('inline', False), sha(data)))
+    what = {w['what'].split(' ')[0]: w['what'] for w in rows}
+    for k, key in list(fails.items()):
+        if k not in have:
+            o = extra[k]
+            tag = (o.get('tags') or ['K?'])[0]
+            if tag not in what:
+                print('UNTAGGED failing fixed input (triage it): %s' % json.dumps(o)[:300])
+                continue
+            w = dict(lang=k[0], opts=k[1], what=what[tag])
+            if o.get('file'):
+                w['file'] = o['file']
+            else:
+                w['src'] = o['src']
+            rows.append(w)
     keep, lines = [], []
     for w in rows:
         data = open(os.path.join(vlib.REPO, w['file']), 'rb').read() if 'file' in w else w['src'].encode('latin1')
